@@ -227,3 +227,75 @@ def all_defs():     # noqa: F811  (extends the earlier definition)
 
 def all_defs_extended():    # noqa: F811
     return all_defs()
+
+
+# ----------------------------------------------------------------------------- C10 literal family
+def literal_family(seed=0, thorough=False):
+    """tokens over an alphabet with every regex metacharacter, cased non-ASCII and raw bytes, +/- ignore(case)"""
+    D = []
+    metas = ['a.b', 'a+', '(x)', '[ab]', 'a|b', 'x*', '^a$', '\\d', '{2}', 'a?', '\\', '.*', '[^a]', '#', '&&', 'a-z', '~']
+    for i in range(0, len(metas), 4):
+        chunk = metas[i:i + 4]
+        D.append(Def(f'lit_meta{i // 4}', variants=[Var(f'T{j}', [T(m)]) for j, m in enumerate(chunk)] + [
+            Var('W', [R('[a-z]')])], tags=('lit', 'quick') if i == 0 else ('lit',)))
+    D.append(Def('lit_unicode', variants=[Var('A', [T('é')]), Var('B', [T('Éa')]), Var('C', [T('ß')]), Var('D', [T('Σσ')]),
+                                          Var('E', [T('日本')]), Var('F', [T('😀')])], tags=('lit', 'unicode', 'quick')))
+    D.append(Def('lit_bytes', utf8=False, variants=[Var('A', [T(b'\xff\x00')]), Var('B', [T(b'\x80')]), Var('C', [T(b'a.b')]),
+                                                    Var('D', [T(b'\xc3\xa9')]), Var('E', [T(b'[')])], tags=('lit', 'bytes', 'quick')))
+    D.append(Def('lit_bytes_in_str', variants=[Var('A', [T(b'\xc3\xa9x')]), Var('B', [T(b'a+')]), Var('C', [T('a')])],
+                 tags=('lit', 'unicode')))
+    # ignore(case)
+    D.append(Def('ic_tokens', variants=[Var('A', [T('ab', ignore_case=True)]), Var('B', [T('a.', ignore_case=True)]),
+                                        Var('C', [T('É', ignore_case=True)]), Var('D', [T('ß', ignore_case=True)]),
+                                        Var('E', [T('k', ignore_case=True)])], tags=('lit', 'ic', 'unicode', 'quick')))
+    D.append(Def('ic_sigma', variants=[Var('S', [T('σ', ignore_case=True)]), Var('X', [T('x+', ignore_case=True)]),
+                                       Var('M', [T('[m]', ignore_case=True)])], tags=('lit', 'ic', 'unicode')))
+    D.append(Def('ic_bytes', utf8=False, variants=[Var('A', [T(b'aB', ignore_case=True)]), Var('B', [T(b'\xc3\xa9', ignore_case=True)]),
+                                                   Var('C', [T(b'k.', ignore_case=True)]), Var('D', [T(b'\xff', ignore_case=True)])],
+                 tags=('lit', 'ic', 'bytes', 'quick')))
+    D.append(Def('ic_regex', skips=[R(' +', ignore_case=True)], variants=[
+        Var('A', [R('[a-c]+x', ignore_case=True)]), Var('B', [R('é|ü', ignore_case=True)]),
+        Var('C', [R('(?-i:q)r', ignore_case=True)]), Var('N', [R('[0-9]+', ignore_case=True)])], tags=('lit', 'ic', 'unicode')))
+    D.append(Def('ic_bytes_regex', utf8=False, variants=[
+        Var('A', [R(b'(c|\xC3\xBB)+', ignore_case=True)]), Var('B', [R(b'a', ignore_case=True)]), Var('K', [R('k', ignore_case=True)])],
+        tags=('lit', 'ic', 'bytes')))
+    if thorough:
+        rnd = random.Random(seed)
+        alpha = list('ab.+*?()[]{}|^$\\-éßΣ😀 ') + ['\n']
+        for k in range(8):
+            lits = set()
+            while len(lits) < 4:
+                lits.add(''.join(rnd.choice(alpha) for _ in range(rnd.randint(1, 3))))
+            lits = sorted(lits)
+            D.append(Def(f'lit_rand{seed}_{k}', variants=[Var(f'T{j}', [T(l, ignore_case=(rnd.random() < 0.3))])
+                                                          for j, l in enumerate(lits)], tags=('lit', 'rand')))
+    return D
+
+
+# ----------------------------------------------------------------------------- C11 subpattern family
+def subpattern_family():
+    D = []
+    D.append(Def('sub_alt', subs=[('ab', 'a|b')], variants=[Var('X', [R('(?&ab)c')]), Var('Y', [R('c(?&ab)')]),
+                                                            Var('Z', [R('d(?&ab)d')])], tags=('subpat', 'quick')))
+    D.append(Def('sub_flags', subs=[('ci', '(?i)k'), ('m', 'm+')], variants=[Var('X', [R('(?&ci)x')]), Var('Y', [R('(?&m)y')]),
+                                                                             Var('K', [T('K')])], tags=('subpat', 'quick')))
+    D.append(Def('sub_nested', subs=[('d', '[0-9]'), ('dd', '(?&d)(?&d)'), ('num', '(?&dd)+\\.(?&d)')], variants=[
+        Var('N', [R('(?&num)')]), Var('D', [R('(?&d)')]), Var('Dot', [T('.')])], tags=('subpat',)))
+    D.append(Def('sub_bytes', subs=[('hi', b'\xC3\xA9|x')], variants=[Var('A', [R('a(?&hi)+')]), Var('B', [R('(?&hi)b')])],
+                 tags=('subpat', 'unicode')))
+    D.append(Def('sub_bytemode', utf8=False, subs=[('raw', b'[\x80-\xFF]'), ('u', 'é')], variants=[
+        Var('A', [R(b'a(?&raw)')]), Var('U', [R('(?&u)+')]), Var('R', [R(b'(?&raw)(?&raw)')])], tags=('subpat', 'bytes')))
+    D.append(Def('sub_skip', subs=[('ws', '[ \\t]')], skips=[R('(?&ws)+')], variants=[Var('A', [R('a(?&ws)?b')]),
+                                                                                     Var('W', [R('[a-z]')])], tags=('subpat',)))
+    D.append(Def('rej_sub_undef2', subs=[('a', 'x')], variants=[Var('A', [R('(?&a)(?&b)')])], expect='reject', tags=('subpat',)))
+    D.append(Def('rej_sub_forward', subs=[('a', '(?&b)x'), ('b', 'y')], variants=[Var('A', [R('(?&a)')])], expect='reject',
+                 tags=('subpat',)))
+    return D
+
+
+def all_defs(seed=0, thorough=False):     # noqa: F811
+    return core() + reject_core() + cb_defs() + literal_family(seed, thorough) + subpattern_family()
+
+
+def all_defs_extended():    # noqa: F811
+    return all_defs(0, True)
